@@ -34,7 +34,7 @@ func init() {
 		Run:      c01Run,
 		Finish:   nil,
 		Require: func(string) map[string]int64 {
-			return map[string]int64{"k:bit255": 50, "k:nil": 1, "k=0": 1, "k=1": 1, "k=n-1": 1, "P=O": 5, "repr:scaled": 20, "repr:id-y": 3, "ksum<=64": 10}
+			return map[string]int64{"k:bit255": 50, "k:nil": 1, "k=0": 1, "k=1": 1, "k=n-1": 1, "P=O": 5, "repr:scaled": 20, "repr:id-y": 3, "ksum<=64": 10, "bits:scalar-bit-seen-as-0-or-1": 512}
 		},
 	})
 }
